@@ -357,7 +357,7 @@ Section Phases.
               then fe = [] /\ r_tags s' = r_tags s /\ r_err s' = r_err s
               else fe = [ent j f idx b true] /\ r_tags s' = r_tags s ++ [tg K_ERR_DATA [pos; j] [cf_name f; N.of_nat idx]] /\ r_err s' = r_err s + 1)
       | None =>
-          fe = [ent j f idx b true] /\ r_err s' = r_err s + 1
+          x = 0%N /\ fe = [ent j f idx b true] /\ r_err s' = r_err s + 1
           /\ r_tags s' = r_tags s ++ [tg (if co_fix o || match fs_find (r_fs s) j (cf_name f) with Some _ => true | None => false end then K_ERR_READ else K_ERR_OPEN)
                                            [pos; j] [cf_name f; N.of_nat idx]]
           /\ (co_fix o = false -> r_fs s' = r_fs s)
@@ -545,13 +545,7 @@ Section Phases.
             - destruct SOr as [Ex [_ SOr]]. subst x. destruct (hval_eqb (hashf y (block_len bs (cf_size f) idx)) (fb_hash b)) eqn:Eh; cbn [negb].
               + destruct SOr as [A [B C]]. subst fe. rewrite app_nil_r. cbn. rewrite Nat.add_0_r. auto.
               + destruct SOr as [A [B C]]. subst fe. cbn. auto.
-            - destruct SOr as [A [B [C _]]]. subst fe. rewrite Efs in C. cbn. repeat split; auto.
-              (* the buffer entry *)
-              unfold data_step in Eds. rewrite Ed, Esa in Eds. clear - Eds. 
-              assert (X : forall a1 a2 : dacc, a1 = a2 -> da_buf a1 = da_buf a2) by (intros; subst; reflexivity).
-              apply X in Eds. cbn [da_buf] in Eds.
-              repeat match type of Eds with context [match ?q with _ => _ end] => destruct q; cbn [da_buf] in Eds end;
-                apply app_inv_head in Eds; injection Eds as Eds; auto. }
+            - destruct SOr as [Ex [A [B [C _]]]]. subst x fe. rewrite Efs in C. cbn. repeat split; auto. }
           destruct Hx as [Hx1 [Hx2 [Hx3 Hx4]]].
           constructor; cbn [da_buf da_failed da_valid da_used da_st]; rewrite ?Eseq.
           * rewrite map_app. cbn. rewrite di_buf0, Hx1. reflexivity.
@@ -569,7 +563,7 @@ Section Phases.
                   destruct (read_block bs s k f idx) as [y|] eqn:Er.
                   ** destruct SOr as [_ [Efs' _]]. rewrite Efs', Efs.
                      unfold read_block in Er. destruct (fs_find (r_fs s) k (cf_name f)); [destruct (co_fix o); reflexivity | discriminate].
-                  ** destruct SOr as [_ [_ [_ [Hcheck Hfix]]]]. destruct (co_fix o) eqn:Efix.
+                  ** destruct SOr as [_ [_ [_ [_ [Hcheck Hfix]]]]]. destruct (co_fix o) eqn:Efix.
                      --- specialize (Hfix eq_refl). rewrite Efs in Hfix.
                          destruct (fs_find (r_fs s) k (cf_name f)) eqn:Ef0.
                          +++ rewrite Hfix. exact Efs.
